@@ -28,7 +28,7 @@ LayerA == IF Stray # {} THEN "HeaderLine"
 
 TraceInit == tid = 1 /\ cls \in {[pub |-> 0, stat |-> 0, clsm |-> 0, priv |-> 0, dunder |-> 0, prop |-> 0, setter |-> 0,
                                   ctor |-> 0, fill |-> 0, blank |-> 0, comment |-> 0, keyword |-> FALSE]}
-             /\ cfg = [maxMethods |-> 1, maxLoc |-> 6, checkKeywords |-> FALSE] /\ done = FALSE
+             /\ cfg = [maxMethods |-> 1, maxLoc |-> 6, checkKeywords |-> FALSE, keywords |-> "default"] /\ done = FALSE
 TraceNext == /\ tid <= Len(Traces)
              /\ PrintT(<<"VERDICT", tid, LayerA, "ok", 0>>)
              /\ tid' = tid + 1 /\ UNCHANGED vars
